@@ -99,7 +99,7 @@ theorem tryReady_spec {r : Resp} {c : Conn} (hw : WF r) (h : Inv r c) (hst : isN
           rw [if_neg hset] at hio
           refine ⟨?_, fun _ => ⟨rfl, rfl, rfl, rfl, rfl, fun _ => Or.inr (Or.inl ⟨hk, rfl⟩)⟩, fun x => by cases x⟩
           refine Inv.nb_update h hst (by exact hst) rfl rfl h.nofault ?_
-          refine ⟨hcore.rpLe, hcore.win, ?_, hcore.tot, hcore.sfOk, hcore.winChunk⟩
+          refine ⟨hcore.rpLe, hcore.win, ?_, hcore.tot, hcore.sfOk, hcore.winChunk, hw.iov_ne, hcore.sfWin⟩
           intro _ _
           simp only [if_true]
           rw [hw.iov_body hk, hio, List.drop_zero]
@@ -143,7 +143,7 @@ theorem tryReady_spec {r : Resp} {c : Conn} (hw : WF r) (h : Inv r c) (hst : isN
               have hdrop : r.body.drop c.rp = [] := List.drop_eq_nil_of_le hend
               rw [hdrop, List.append_nil] at heq
               refine ⟨h.nofault, fun _ => ?_, ?_, ?_, ?_, ?_, ?_⟩
-              · refine ⟨hcore.rpLe, hcore.win, hcore.iovOk, ?_, hcore.sfOk, hcore.winChunk⟩
+              · refine ⟨hcore.rpLe, hcore.win, hcore.iovOk, ?_, hcore.sfOk, hcore.winChunk, hcore.iovNe, hcore.sfWin⟩
                 have ht := hcore.tot
                 unfold TotOk at ht ⊢
                 split
@@ -158,7 +158,7 @@ theorem tryReady_spec {r : Resp} {c : Conn} (hw : WF r) (h : Inv r c) (hst : isN
               simp only [Prod.mk.injEq] at hres; obtain ⟨rfl, rfl⟩ := hres
               refine ⟨?_, (fun x => by cases x), fun _ => Or.inr (Or.inr rfl)⟩
               refine Inv.nb_update h hst (Or.inr rfl) rfl rfl h.nofault ?_
-              refine ⟨hcore.rpLe, ?_, hcore.iovOk, hcore.tot, hcore.sfOk, fun hch => by rw [hnc] at hch; cases hch⟩
+              refine ⟨hcore.rpLe, ?_, hcore.iovOk, hcore.tot, hcore.sfOk, (fun hch => by rw [hnc] at hch; cases hch), hcore.iovNe, fun x => absurd x hsf⟩
               rw [if_neg hkb]; show c.rp + 0 ≤ r.body.length; omega
             · -- data
               rename_i n hn0 hcrc
@@ -167,7 +167,7 @@ theorem tryReady_spec {r : Resp} {c : Conn} (hw : WF r) (h : Inv r c) (hst : isN
               have hd := crcCall_data hcrc hne
               refine ⟨?_, fun _ => ⟨rfl, rfl, rfl, rfl, rfl, fun _ => Or.inr (Or.inr ⟨hk, Nat.le_refl _, by show c.rp < c.rp + n; omega⟩)⟩, fun x => by cases x⟩
               refine Inv.nb_update h hst (by exact hst) rfl rfl h.nofault ?_
-              refine ⟨hcore.rpLe, ?_, hcore.iovOk, hcore.tot, hcore.sfOk, fun hch => by rw [hnc] at hch; cases hch⟩
+              refine ⟨hcore.rpLe, ?_, hcore.iovOk, hcore.tot, hcore.sfOk, (fun hch => by rw [hnc] at hch; cases hch), hcore.iovNe, fun x => absurd x hsf⟩
               rw [if_neg hkb]; show c.rp + n ≤ r.body.length; omega
 
 
@@ -250,7 +250,8 @@ theorem iovMax_ne_zero : iovMax ≠ 0 := by decide
 theorem sendIovec_spec (sent : Nat) (rest : List Bytes) (s : SockRes) :
     ∃ X, X <+: rest.flatten ∧ SendSpec (sendIovec false sent rest s).out X ∧ (sendIovec false sent rest s).fault = false ∧
       (∀ n, (sendIovec false sent rest s).out.ret = .ok n → (sendIovec false sent rest s).rest.flatten = rest.flatten.drop n) ∧
-      (∀ e, (sendIovec false sent rest s).out.ret = .error e → (sendIovec false sent rest s).rest = rest) := by
+      (∀ e, (sendIovec false sent rest s).out.ret = .error e → (sendIovec false sent rest s).rest = rest) ∧
+      ((∀ e ∈ rest, e ≠ []) → ∀ n, (sendIovec false sent rest s).out.ret = .ok n → ∀ e ∈ (sendIovec false sent rest s).rest, e ≠ []) := by
   unfold sendIovec
   simp only [Bool.false_eq_true, if_false]
   have h0 : ¬ (iovMax < rest.length ∧ iovMax = 0) := fun x => iovMax_ne_zero x.2
@@ -262,19 +263,21 @@ theorem sendIovec_spec (sent : Nat) (rest : List Bytes) (s : SockRes) :
   cases hr : (sysSend (rest.take items).flatten s).ret with
   | error e =>
     simp only []
-    refine ⟨hspec, trivial, ?_, ?_⟩
+    refine ⟨hspec, trivial, ?_, ?_, ?_⟩
     · intro n hn; rw [hr] at hn; cases hn
     · intro _ _; trivial
+    · intro _ n hn; rw [hr] at hn; cases hn
   | ok res =>
     simp only []
     obtain ⟨hle, _⟩ := hspec.ok res hr
     have hle2 : res ≤ rest.flatten.length := Nat.le_trans hle hX.length_le
-    obtain ⟨k, l', h1, h2, _⟩ := iovAdvance_spec rest res hle2
+    obtain ⟨k, l', h1, h2, _, h4⟩ := iovAdvance_spec rest res hle2
     rw [h1]
     simp only []
-    refine ⟨hspec, trivial, ?_, ?_⟩
+    refine ⟨hspec, trivial, ?_, ?_, ?_⟩
     · intro n hn; rw [hr] at hn; cases hn; exact h2
     · intro e he; rw [hr] at he; cases he
+    · intro hne _ _; exact h4 hne
 
 theorem hw_normalBody_inv {r : Resp} {c : Conn} (hw : WF r) (h : Inv r c) (hs : c.st = .normalBodyReady)
     (s : SockRes) (app : AppAns) (alloc : Bool) : Inv r (hwNormalBody r c s app alloc) := by
@@ -300,7 +303,7 @@ theorem hw_normalBody_inv {r : Resp} {c : Conn} (hw : WF r) (h : Inv r c) (hs : 
         split
         · -- sendfile
           rename_i hsf
-          have hkf := hcore'.sfOk hsf
+          have hkf := hw.sf_kind (hcore'.sfOk hsf)
           obtain ⟨X, hX, hspec⟩ := sendSendfile_spec r.thrPerConn r.body r.fdOff c'.rp c'.tot s
           generalize sendSendfile r.thrPerConn r.body r.fdOff c'.rp c'.tot s = x at *
           obtain ⟨hok, herr⟩ := nb_wire (c := c') hX hspec
@@ -322,7 +325,7 @@ theorem hw_normalBody_inv {r : Resp} {c : Conn} (hw : WF r) (h : Inv r c) (hs : 
             obtain ⟨hn, hwire⟩ := hok n hr
             refine nb_ok_step (c2 := { c' with out := c'.out ++ x.out.wire, sf := x.sf, rp := c'.rp + n })
               hw hinv' hst' n hn (by show c'.out ++ x.out.wire = _; rw [hwire]) rfl rfl hinv'.nofault ?_
-            refine ⟨fun _ => by show c'.rp + n ≤ _; omega, hcore'.win, fun hk' => absurd hk' hki, ?_, fun _ => hkf, hcore'.winChunk⟩
+            refine ⟨fun _ => by show c'.rp + n ≤ _; omega, hcore'.win, fun hk' => absurd hk' hki, ?_, fun _ => hcore'.sfOk hsf, hcore'.winChunk, hcore'.iovNe, fun _ => hcore'.sfWin hsf⟩
             have ht := hcore'.tot
             unfold TotOk at ht ⊢
             split
@@ -342,7 +345,7 @@ theorem hw_normalBody_inv {r : Resp} {c : Conn} (hw : WF r) (h : Inv r c) (hs : 
               · exact absurd hk x.1
             have hio := hcore'.iovOk hk hsb
             rw [if_pos hset] at hio
-            obtain ⟨X, hX, hspec, hnf, hrest, hsame⟩ := sendIovec_spec c'.isent c'.irest s
+            obtain ⟨X, hX, hspec, hnf, hrest, hsame, hne'⟩ := sendIovec_spec c'.isent c'.irest s
             generalize sendIovec false c'.isent c'.irest s = x at *
             rw [hio] at hX
             obtain ⟨hok, herr⟩ := nb_wire (c := c') hX hspec
@@ -366,7 +369,7 @@ theorem hw_normalBody_inv {r : Resp} {c : Conn} (hw : WF r) (h : Inv r c) (hs : 
               obtain ⟨hn, hwire⟩ := hok n hr
               refine nb_ok_step (c2 := { c' with out := c'.out ++ x.out.wire, isent := x.sent, irest := x.rest, rp := c'.rp + n })
                 hw hinv' hst' n hn (by show c'.out ++ x.out.wire = _; rw [hwire]) rfl rfl hinv'.nofault ?_
-              refine ⟨fun _ => by show c'.rp + n ≤ _; omega, hcore'.win, ?_, ?_, hcore'.sfOk, hcore'.winChunk⟩
+              refine ⟨fun _ => by show c'.rp + n ≤ _; omega, hcore'.win, ?_, ?_, hcore'.sfOk, hcore'.winChunk, hne' hcore'.iovNe n hr, hcore'.sfWin⟩
               · intro _ _
                 show (if c'.iovSet = true then x.rest.flatten = r.body.drop (c'.rp + n) else c'.rp + n = 0)
                 rw [if_pos hset, hrest n hr, hio, List.drop_drop]
@@ -410,7 +413,7 @@ theorem hw_normalBody_inv {r : Resp} {c : Conn} (hw : WF r) (h : Inv r c) (hs : 
               obtain ⟨hn, hwire⟩ := hok n hr
               refine nb_ok_step (c2 := { c' with out := c'.out ++ o.wire, rp := c'.rp + n })
                 hw hinv' hst' n hn (by show c'.out ++ o.wire = _; rw [hwire]) rfl rfl hinv'.nofault ?_
-              refine ⟨fun _ => by show c'.rp + n ≤ _; omega, hcore'.win, fun hk' => absurd hk' hk, ?_, hcore'.sfOk, hcore'.winChunk⟩
+              refine ⟨fun _ => by show c'.rp + n ≤ _; omega, hcore'.win, fun hk' => absurd hk' hk, ?_, hcore'.sfOk, hcore'.winChunk, hcore'.iovNe, hcore'.sfWin⟩
               have ht := hcore'.tot
               unfold TotOk at ht ⊢
               split
